@@ -466,3 +466,5 @@ _quick("C05", "C18_keepalive", "(also under C18) " + _KEEPALIVE, ["-witness", "1
 _quick("C07", "C16_update", "(also under C16) a persisted hold whose holder changes its terms one second later (update: E=200/300, optionally Count 3), 0 / 1 / 3 / 70 s pass, rotation, compaction, restart: the hold comes back with the deadline, Count and Rcount its last update gave it", ["-witness", "1"], reach=["end"])
 
 _quick("C11", "C11_sharedfail", "a key of capacity 2: a plain holder keeps one slot, an ack-required lock goes pending on the other, a third request queues; the acknowledgement fails (negative follower ack / the wait runs out): one error reply, the hold gone, the queued request granted the freed slot although the key still has another holder", ["-witness", "1"], reach=["end", "nack", "ack-timeout"])
+
+_quick("C09", "C09_twowriters", "two writers in Aof.PushLock, the harness as scheduler: right before the first writer acquires replGlock (vfLockHook) a second writer runs its whole PushLock if, and only if, the first no longer holds aofGlock; both records come out of the replication ring, and lie in the log file, in the order of their log positions", [], reach=["end", "serialised"], native=False)
